@@ -400,28 +400,6 @@ func (c *canonCtx) skeleton(e cypher.Expression) *bnode {
 		for _, x := range es {
 			n.kids = append(n.kids, c.skeleton(x))
 		}
-		if k == bOr {
-			// Neo4j null guard added by query/neo4j ExpressionListRewriter (and mirrored by the PostgreSQL translator with
-			// coalesce): `not (x CONTAINS s)` is emitted as `(not (x CONTAINS s) or x is null)`; the guard is absorbed
-			guarded := map[string]bool{}
-			for _, kid := range n.kids {
-				if s := strip(kid); s != nil && s.kind == bNot {
-					if in := strip(s.kids[0]); in != nil && in.kind == bAtom && in.strPredOn != "" {
-						guarded[in.strPredOn] = true
-					}
-				}
-			}
-			if len(guarded) > 0 {
-				kept := n.kids[:0:0]
-				for _, kid := range n.kids {
-					if s := strip(kid); s != nil && s.kind == bAtom && s.isNullOf != "" && guarded[s.isNullOf] {
-						continue
-					}
-					kept = append(kept, kid)
-				}
-				n.kids = kept
-			}
-		}
 		if len(n.kids) == 1 {
 			return n.kids[0] // a one-element list means its element (and is emitted as such)
 		}
@@ -585,6 +563,19 @@ func hoist(n *bnode, underNot bool, hoisted *[]string) *bnode {
 	return out
 }
 
+// collectGuards records, for every string predicate atom below n, the spelling of its null guard atom.
+func collectGuards(n *bnode, out map[string]string) {
+	if n == nil {
+		return
+	}
+	if n.kind == bAtom && n.strPredOn != "" {
+		out[n.atom] = "(cmp " + n.strPredOn + " is lit:null)"
+	}
+	for _, k := range n.kids {
+		collectGuards(k, out)
+	}
+}
+
 func collectAtoms(n *bnode, out *[]string) {
 	if n.kind == bAtom {
 		*out = append(*out, n.atom)
@@ -733,7 +724,25 @@ func (e *expr) eval(assign []tv) tv {
 }
 
 // reading turns a skeleton into an evaluable expression under a deviation set.
-func reading(n *bnode, d deviations, index map[string]int) *expr {
+// The Neo4j null guard: query/neo4j's ExpressionListRewriter emits `not (x CONTAINS s)` as
+// `(not (x CONTAINS s) or x is null)` on purpose (the PostgreSQL translator mirrors it with coalesce). Both sides are
+// normalised by adding the guard at EVERY negated string predicate of the final reading; OR is idempotent in 3-valued logic,
+// so a guard that is already there changes nothing and the truth tables stay exact. guardOf maps the index of a string
+// predicate atom to the index of its `x is null` atom.
+func addGuards(e *expr, guardOf map[int]int) *expr {
+	if e == nil {
+		return nil
+	}
+	e.a, e.b = addGuards(e.a, guardOf), addGuards(e.b, guardOf)
+	if e.op == "not" && e.a.op == "atom" {
+		if g, ok := guardOf[e.a.atom]; ok {
+			return &expr{op: "or", a: e, b: &expr{op: "atom", atom: g}}
+		}
+	}
+	return e
+}
+
+func reading(n *bnode, d deviations, index map[string]int, guardOf map[int]int) *expr {
 	var extra []string
 	if d.relKindHoist && n != nil {
 		n = hoist(n, false, &extra)
@@ -772,7 +781,7 @@ func reading(n *bnode, d deviations, index map[string]int) *expr {
 	if p.pos != len(toks) {
 		panic("c10: trailing tokens")
 	}
-	return e
+	return addGuards(e, guardOf)
 }
 
 // table evaluates e under all 3^k assignments.
